@@ -91,6 +91,7 @@ class World:
     def __init__(self, facts=None, ints=None, seqs=None, notes=None):
         self.facts = list(facts or [])
         self.ints = dict(ints or {})     # local id -> linear form
+        self.opts = {}                   # local id -> linear form of the payload of an Option<usize>
         self.seqs = dict(seqs or {})     # local id -> Seq
         self.notes = list(notes or [])
         self.bools = {}
@@ -98,6 +99,7 @@ class World:
     def fork(self, extra=()):
         w = World(self.facts + list(extra), self.ints, self.seqs, self.notes)
         w.bools = dict(self.bools)
+        w.opts = dict(self.opts)
         return w
 
     def ok(self):
@@ -197,6 +199,25 @@ class Evaluator:
                         wb = W2.fork([add(sub(b, a), L(-1))])
                         if wb.ok():
                             yield wb, b
+                return
+            if m in ('unwrap', 'unwrap_or', 'expect') and peel(e['ch'][0]).get('res') == 'local' and \
+                    peel(e['ch'][0])['local'] in W.opts:
+                form = W.opts[peel(e['ch'][0])['local']]
+                if m != 'unwrap_or':
+                    yield W, form
+                    return
+                for W1, d in self.ev_int(e['ch'][1], W):
+                    if d is None:
+                        yield W1, None
+                        continue
+                    u = self.sym('unwrap_or')
+                    # u is either the payload or the default
+                    w1 = W1.fork([sub(L(u), form), sub(form, L(u))])
+                    if w1.ok():
+                        yield w1, L(u)
+                    w2 = W1.fork([sub(L(u), d), sub(d, L(u))])
+                    if w2.ok():
+                        yield w2, L(u)
                 return
             if m == 'unsigned_abs' and len(e['ch']) == 1:
                 for W1, a in self.ev_int(e['ch'][0], W):
@@ -327,6 +348,21 @@ class Evaluator:
         if k == 'Unary' and c['op'] == 'Not':
             for t, f in self.cond_worlds(c['ch'][0], W):
                 yield f, t
+            return
+        if k == 'LetExpr':
+            init = peel(c['ch'][0])
+            pat = c['pat']
+            if init.get('res') == 'local' and init['local'] in W.opts and \
+                    pat.get('k') == 'TupleStruct' and pat['ch'] and pat['ch'][0].get('k') == 'Binding':
+                wt = W.fork()
+                wt.ints[pat['ch'][0]['local']] = W.opts[init['local']]
+                yield wt, W.fork()
+                return
+            yield W.fork(), W.fork()
+            return
+        if k == 'MethodCall' and c['method'] in ('is_some', 'is_none') and \
+                peel(c['ch'][0]).get('res') == 'local' and peel(c['ch'][0])['local'] in W.opts:
+            yield W.fork(), W.fork()
             return
         if k == 'Path' and c.get('res') == 'local':
             # boolean parameter: remember the choice for consistency
@@ -669,6 +705,7 @@ class Evaluator:
         k = e.get('k')
         if k == 'If':
             out = []
+            self.scan_accesses(e['ch'][0], W)
             diverges = (peel(e['ch'][1]).get('ty') == '!' or e['ch'][1].get('ty') == '!') and \
                 not any(x.get('k') in ('Ret', 'Break', 'Continue') for x in walk(e['ch'][1]))
             for wt, wf in self.cond_worlds(e['ch'][0], W):
@@ -729,8 +766,29 @@ class Evaluator:
             return [W]
         if k == 'Block':
             return self.exec_body(e, W)
-        if k == 'Call':
-            self.scan_accesses(e, W)
+        if k == 'Match':
+            self.scan_accesses(e['ch'][0], W)
+            out = []
+            for a in e['arms']:
+                out.extend(self.exec_body(a['body'], W.fork()))
+            return out or [W]
+        if k in ('Assign', 'AssignOp'):
+            self.scan_accesses(e['ch'][1], W)
+            t = peel(e['ch'][0])
+            if t.get('res') == 'local' and t['local'] in W.ints:
+                w = W.fork()
+                w.ints.pop(t['local'], None)      # value no longer tracked
+                w.ints[t['local']] = None
+                w.ints.pop(t['local'])
+                # a fresh opaque symbol stands for the new value
+                w.ints[t['local']] = L(self.sym(t.get('name', 'v')))
+                return [w]
+            return [W]
+        if k in ('While', 'Loop'):
+            for c in children(e):
+                self.exec_body(c, W.fork()) if c.get('k') == 'Block' else self.scan_accesses(c, W)
+            return [W]
+        self.scan_accesses(e, W)
         return [W]
 
     def exec_for(self, e, W):
@@ -786,7 +844,15 @@ class Evaluator:
         closures or loops)."""
         e = peel(e)
         k = e.get('k')
-        if k in ('Closure', 'For', 'While', 'Loop'):
+        if k == 'For':
+            self.exec_for(e, W)
+            return
+        if k in ('Closure', 'While', 'Loop'):
+            return
+        if k == 'Match':
+            self.scan_accesses(e['ch'][0], W)
+            for a in e['arms']:
+                self.scan_block(a['body'], W.fork())
             return
         if k == 'If' and len(e['ch']) >= 2:
             self.scan_accesses(e['ch'][0], W)
@@ -798,6 +864,25 @@ class Evaluator:
             return
         if k == 'Block':
             self.scan_block(e, W)
+            return
+        if k == 'MethodCall' and e['method'] in ('map', 'for_each', 'filter', 'filter_map') and \
+                len(e['ch']) == 2 and peel(e['ch'][0]).get('k') == 'Range' and \
+                peel(e['ch'][1]).get('k') == 'Closure':
+            rng = peel(e['ch'][0])
+            cl = peel(e['ch'][1])
+            binds = _pat_binds(cl['params'][0]) if cl.get('params') else []
+            for W1, a in self.ev_int(rng['ch'][0], W):
+                for W2, b in self.ev_int(rng['ch'][1], W1):
+                    if a is None or b is None or len(binds) != 1:
+                        self.loops.append({'node': e, 'world': W2, 'lo': a, 'hi': b, 'pos': None,
+                                           'usets': [], 'unknown': 'range map'})
+                        continue
+                    hi = add(b, L(1)) if rng['incl'] else b
+                    vs = '%s#%d' % (binds[0]['name'], binds[0]['local'])
+                    w = W2.fork([sub(L(vs), a), add(sub(hi, L(vs)), L(-1))])
+                    w.ints[binds[0]['local']] = L(vs)
+                    if w.ok():
+                        self.scan_block(cl['ch'][0], w)
             return
         if k == 'MethodCall':
             m = e['method']
